@@ -141,4 +141,108 @@ Proof.
   lia.
 Qed.
 
+
+(** ** from the invariant at the end to the oracle *)
+
+Definition tr_of (res : list rstate) (c : cspec) (r : nat) : Z * Z :=
+  if uses c r then (r_pos (nth r res rdummy), r_wrote (nth r res rdummy)) else (0, 0).
+
+Lemma chk_callers_ok : forall res l callers n,
+  length callers = length l ->
+  (forall i c k, nth_error l i = Some c -> nth_error callers i = Some k ->
+      started script (n + i) = true
+      /\ exists T, chk_calls rs (cs_co c) (zero_track rs) (cs_prog c) (rev (k_out k)) = Some T
+                   /\ forall r, tr_get T r = tr_of res c r) ->
+  exists ts, chk_callers rs script n l (map (fun k => rev (k_out k)) callers) = Some ts
+             /\ Forall2 (fun c T => forall r, tr_get T r = tr_of res c r) l ts.
+Proof.
+  intros res. induction l as [|c l IH]; intros [|k callers] n Hlen Hp; cbn [length] in Hlen; try lia.
+  - exists []. split; [reflexivity|constructor].
+  - cbn [map chk_callers].
+    destruct (Hp O c k eq_refl eq_refl) as [Hs [T [HT HTr]]]. rewrite Nat.add_0_r in Hs. rewrite Hs.
+    unfold calls_of. rewrite HT.
+    destruct (IH callers (S n)) as [ts [Hts Hf]]; [lia| |].
+    { intros i c' k' H1 H2. replace (S n + i)%nat with (n + S i)%nat by lia. apply (Hp (S i) c' k'); auto. }
+    rewrite Hts. exists (T :: ts). split; auto.
+Qed.
+
+Lemma sum_forall2 : forall res l ts r, Forall2 (fun c T => forall r, tr_get T r = tr_of res c r) l ts ->
+  sum_cons ts r = sumZ (map (fun c => fst (tr_of res c r)) l)
+  /\ sum_wrote ts r = sumZ (map (fun c => snd (tr_of res c r)) l).
+Proof.
+  intros res l ts r H. unfold sum_cons, sum_wrote. induction H as [|c T l ts Hc Hf IH]; [split; reflexivity|].
+  cbn [map]. rewrite !sumZ_cons. destruct IH as [I1 I2]. rewrite I1, I2, Hc. auto.
+Qed.
+
+Lemma private_sums : forall res r x, private cs = true -> nth r res rdummy = x ->
+  ((forall c, In c cs -> uses c r = false) -> r_pos x = 0 /\ r_wrote x = 0) ->
+  sumZ (map (fun c => fst (tr_of res c r)) cs) = r_pos x
+  /\ sumZ (map (fun c => snd (tr_of res c r)) cs) = r_wrote x.
+Proof.
+  intros res r x Hp Hx Hun.
+  destruct (existsb (fun c => uses c r) cs) eqn:E.
+  - apply existsb_exists in E as [c [Hc Hu]]. apply In_nth_error in Hc as [i Hi].
+    split.
+    + rewrite (sumZ_single (fun c => fst (tr_of res c r)) cs i c Hi).
+      * unfold tr_of. rewrite Hu, Hx. reflexivity.
+      * intros j y Hj Hne. unfold tr_of. rewrite (private_spec cs i j c y r Hp Hi Hj); auto.
+    + rewrite (sumZ_single (fun c => snd (tr_of res c r)) cs i c Hi).
+      * unfold tr_of. rewrite Hu, Hx. reflexivity.
+      * intros j y Hj Hne. unfold tr_of. rewrite (private_spec cs i j c y r Hp Hi Hj); auto.
+  - assert (Hall : forall c, In c cs -> uses c r = false).
+    { intros c Hc. destruct (uses c r) eqn:Eu; auto.
+      assert (existsb (fun c => uses c r) cs = true) by (apply existsb_exists; eauto). congruence. }
+    destruct (Hun Hall) as [H1 H2]. rewrite H1, H2.
+    split; apply sumZ_none; intros c Hc; unfold tr_of; rewrite (Hall c Hc); reflexivity.
+Qed.
+
+Lemma chk_end_ok : forall ts specs ress n,
+  length ress = length specs ->
+  (forall k sp x, nth_error specs k = Some sp -> nth_error ress k = Some x ->
+     r_kind x = rs_kind sp /\ r_eof x = rs_eof sp
+     /\ sum_cons ts (n + k) + r_avail x = rs_pre sp + feeds_of rs script (n + k)
+     /\ sum_wrote ts (n + k) = r_wrote x) ->
+  chk_end rs script ts n specs (map left_of ress) (sinks n ress) = true.
+Proof.
+  intros ts. induction specs as [|sp specs IH]; intros [|x ress] n Hlen Hp; cbn [length] in Hlen; try lia.
+  - reflexivity.
+  - cbn [map sinks chk_end].
+    destruct (Hp O sp x eq_refl eq_refl) as [A [B [C D]]]. rewrite Nat.add_0_r in C, D.
+    rewrite IH; [| lia |].
+    2:{ intros k sp' x' H1 H2. replace (S n + k)%nat with (n + S k)%nat by lia. apply (Hp (S k)); auto. }
+    rewrite andb_true_r. unfold left_of, has_sink. rewrite A, B, D.
+    apply andb_true_iff. split.
+    + destruct (readable (rs_kind sp)) eqn:Er; [lia|reflexivity].
+    + destruct (rs_kind sp), (rs_eof sp); cbn; auto; apply zlist_eqb_refl.
+Qed.
+
+Lemma final_ok : forall st, Inv rs cs None [] total st -> all_finished st = true ->
+  ok_C27 rs cs script (obs_of st) = true.
+Proof.
+  intros st HI Haf. destruct wf_parts as [W1 [W2 [W3 [W4 [W5 [W6 W7]]]]]].
+  unfold ok_C27, obs_of. cbn [o_end o_calls]. rewrite (i_alive _ _ _ _ _ _ HI), (i_nodiv _ _ _ _ _ _ HI).
+  destruct (chk_callers_ok (s_res st) cs (s_callers st) O) as [ts [Hts Hf]].
+  { apply (i_len _ _ _ _ _ _ HI). }
+  { intros i c k Hc Hk. split; [apply W6; eapply nth_error_some_lt; eauto|].
+    unfold all_finished in Haf. rewrite forallb_forall in Haf.
+    pose proof (Haf k (nth_error_In _ _ Hk)) as Hfin. unfold finished in Hfin.
+    destruct (i_callers _ _ _ _ _ _ HI i c k Hc Hk) as [A B C D E F [done [T [G1 [G2 [G3 G4]]]]]].
+    destruct (k_stat k) eqn:Hst; try discriminate.
+    - pose proof (i_start _ _ _ _ _ _ HI i k Hk Hst) as Hs. cbn in Hs. discriminate.
+    - exists T. assert (Hp : k_prog k = []) by (apply E; auto; discriminate).
+      assert (Hd : done = cs_prog c).
+      { rewrite G1. unfold todo, pending. rewrite Hst, Hp. cbn. rewrite app_nil_r. reflexivity. }
+      rewrite <- Hd. split; auto. intro r. unfold tr_of. destruct (uses c r) eqn:Eu; auto. }
+  rewrite Hts.
+  apply chk_end_ok.
+  - apply (i_rlen _ _ _ _ _ _ HI).
+  - intros r sp x Hsp Hx. cbn [Nat.add].
+    destruct (i_res _ _ _ _ _ _ HI r sp x Hsp Hx) as [R1 [R2 [R3 [R4 [R5 R6]]]]].
+    destruct (sum_forall2 (s_res st) cs ts r Hf) as [S1 S2].
+    destruct (private_sums (s_res st) r x W2 (nth_error_nth _ _ _ rdummy Hx) R6) as [P1 P2].
+    rewrite S1, S2, P1, P2. repeat split; auto.
+    assert (feeds_of rs [] r = 0) by (unfold feeds_of; destruct (feedable _ _); auto).
+    unfold total in R5. lia.
+Qed.
+
 End Final.
